@@ -11,6 +11,7 @@
 
 import itertools
 import random
+from concurrent.futures import ThreadPoolExecutor
 
 from .. import tlc, tlaval
 from ..common import chunks, pmap, CPUS
@@ -84,9 +85,10 @@ def _calls(n, rich):
                 calls.append({"d": direction, "off": off, "rl": rlen, "min": 0})
             continue
         for off, rlen in _placements(n):
-            for minimum in (0, 6):
-                calls.append({"d": direction, "off": off, "rl": rlen, "min": minimum})
-        for minimum in (5, 7, 9, 10):
+            calls.append({"d": direction, "off": off, "rl": rlen, "min": 0})
+        for off, rlen in ((1, n), (4, n + 2), (2, n + 4)):
+            calls.append({"d": direction, "off": off, "rl": rlen, "min": 6})
+        for minimum in (5, 6, 7, 9, 10, 12):
             calls.append({"d": direction, "off": 0, "rl": 0, "min": minimum})
     return calls
 
@@ -230,6 +232,8 @@ def _all_features(case):
     feats = ["circular" if case["circ"] else "linear"]
     area = case["area"]
     feats.append("whole_record" if not area["parts"] else ("area_crosses_origin" if _bridging(area) else "area_simple"))
+    if area["parts"]:
+        feats.append("area_given")
     genes = case["genes"]
     if not genes:
         feats.append("no_genes")
@@ -335,10 +339,34 @@ def _random_loc(rng, length, circ):
     return {"parts": parts, "strand": strand}
 
 
+def _planted_record(rng, length):
+    """ background without start codons (so that most ORFs are the planted ones), then ORFs of either strand planted
+        at random places, possibly overlapping each other or the origin region, plus a little noise """
+    rec = [rng.choice([0, 1, 1, 0, 4]) for _ in range(length)]
+    for _ in range(rng.choice([1, 2, 2, 3])):
+        inner = [rng.choice([[2, 1, 1], [0, 0, 0], [1, 3, 2], [4, 4, 4], [2, 0, 4], [0, 1, 2]]) for _ in range(rng.randrange(0, 5))]
+        orf = codes(rng.choice(["ATG", "GTG", "TTG"])) + [b for codon in inner for b in codon] + codes(rng.choice(["TAA", "TAG", "TGA"]))
+        if rng.random() < 0.5:
+            orf = revcomp(orf)
+        start = rng.randrange(0, length)
+        for pos, base in enumerate(orf):
+            if start + pos < length:
+                rec[start + pos] = base
+            elif rng.random() < 2:      # wraps around (meaningful on circular records)
+                rec[(start + pos) % length] = base
+    for idx in range(length):
+        roll = rng.random()
+        if roll < 0.04:
+            rec[idx] = rng.choice([0, 1, 2, 3])
+        elif roll < 0.10 and rec[idx] < 5:
+            rec[idx] += 5
+    return rec
+
+
 def _random_all_case(rng):
     length = rng.choice([24, 27, 30, 33, 36, 41])
     circ = rng.random() < 0.6
-    rec = codes(_random_string(rng, length))
+    rec = _planted_record(rng, length) if rng.random() < 0.8 else codes(_random_string(rng, length))
     genes = []
     for _ in range(rng.choice([0, 0, 1, 1, 2, 2, 3])):
         loc = _random_loc(rng, length, circ)
@@ -412,8 +440,8 @@ def _split_scan_failures(ctx, cases_by_id, observed):
             continue
         clause, _, idx = failure["clause"].rpartition(":")
         case = cases_by_id[failure.pop("event")]
-        call = case["calls"][int(idx)]
-        seen = observed[case["id"]]["calls"][int(idx)]
+        call = case["calls"][int(idx) - 1]
+        seen = observed[case["id"]]["calls"][int(idx) - 1]
         failure["clause"] = clause
         failure["input"] = {"op": "scan", "s": case["s"], "d": call["d"], "off": call["off"], "rl": call["rl"],
                             "min": call["min"]}
@@ -427,19 +455,32 @@ def run(ctx):
     rng = random.Random(ctx.seed)
     max_bases, max_codons = (8, 5) if ctx.quick else (10, 6)
     strings = {}
-    for name, tokens, bound in (("MC_OrfsBases", BASE_TOKENS, max_bases), ("MC_OrfsCodons", CODON_TOKENS, max_codons)):
-        mc = tlc.run(name, MC_CFG % {"max": bound}, ctx.workdir, dump=True, coverage=True, timeout=3000,
-                     extra_files=_wrapper(name, tokens), tag=f"_{name}")
+    mains = (("MC_OrfsBases", BASE_TOKENS, max_bases), ("MC_OrfsCodons", CODON_TOKENS, max_codons))
+    negs = (("MC_OrfsBases", BASE_TOKENS, 9, "LastStartAgrees"), ("MC_OrfsBases", BASE_TOKENS, 7, "NoOrfAnywhere"),
+            ("MC_OrfsCodons", CODON_TOKENS, 5, "NoTwoOrfs"))
+    tlc.stage(ctx.workdir, {**_wrapper("MC_OrfsBases", BASE_TOKENS), **_wrapper("MC_OrfsCodons", CODON_TOKENS)})
+
+    def main_run(spec):
+        name, _, bound = spec
+        return tlc.run(name, MC_CFG % {"max": bound}, ctx.workdir, dump=True, coverage=True, timeout=3000,
+                       tag=f"_{name}", workers=max(2, CPUS // 2))
+
+    def neg_run(spec):
+        name, _, bound, invariant = spec
+        return tlc.run(name, NEG_CFG % {"max": bound, "inv": invariant}, ctx.workdir, tag=f"_neg_{invariant}",
+                       timeout=600, workers=2)
+    with ThreadPoolExecutor(max_workers=5) as pool:
+        main_futures = [pool.submit(main_run, spec) for spec in mains]
+        neg_futures = [pool.submit(neg_run, spec) for spec in negs]
+        main_results = [f.result() for f in main_futures]
+        neg_results = [f.result() for f in neg_futures]
+    for (name, tokens, bound), mc in zip(mains, main_results):
         ctx.model(mc, f"{name}: OrfsOf against the sweep model, mapping/extraction coherence, all strings of <= {bound} "
                       f"tokens from {[text(tok) for tok in tokens]}", vacuity=["PickPrefix", "PickRest"])
         for seq, norfs in _load_strings(mc):
             strings[tuple(seq)] = norfs
-    for name, tokens, bound, invariant in (("MC_OrfsBases", BASE_TOKENS, 9, "LastStartAgrees"),
-                                           ("MC_OrfsBases", BASE_TOKENS, 7, "NoOrfAnywhere"),
-                                           ("MC_OrfsCodons", CODON_TOKENS, 5, "NoTwoOrfs")):
-        neg = tlc.run(name, NEG_CFG % {"max": bound, "inv": invariant}, ctx.workdir, tag=f"_neg_{invariant}",
-                      extra_files=_wrapper(name, tokens), timeout=600)
-        ctx.expect_violation(neg, invariant, f"Orfs_MC negative control {invariant}")
+    for (name, _, bound, invariant), neg in zip(negs, neg_results):
+        ctx.expect_violation(neg, invariant, f"{name} (<= {bound} tokens) negative control {invariant}")
     strings = sorted((list(seq), norfs) for seq, norfs in strings.items())
 
     cases = []
@@ -448,11 +489,11 @@ def run(ctx):
         cases.append({"op": "scan", "s": seq, "calls": _calls(len(seq), norfs > 0), "rich": norfs > 0})
         if norfs > 0:
             rich_strings.append(seq)
-    n_variants = 3 if ctx.quick else 2
+    n_variants = 1 if ctx.quick else 2
     for seq in rich_strings:
         for new in _variants(rng, seq, n_variants):
             cases.append({"op": "scan", "s": new, "calls": _calls(len(new), True), "sampled": True})
-    for _ in range(1500 if ctx.quick else 40000):
+    for _ in range(1000 if ctx.quick else 40000):
         seq = codes(_random_string(rng, rng.randrange(9, 31)))
         cases.append({"op": "scan", "s": seq, "calls": _calls(len(seq), True), "sampled": True})
     cases += _gaps_cases(rng, ctx.quick)
@@ -471,7 +512,7 @@ def run(ctx):
         if case["op"] == "scan":
             calls_made += len(case["calls"])
             by_id[ident] = {"op": "scan", "event": ident, "input": {"event": ident}}
-            if case.get("rich") or case.get("sampled"):
+            if case.get("rich") or any(call["r"]["v"] for call in observed[ident]["calls"]):
                 ctx.nontrivial_case(ident)
         else:
             meta = _meta(case)
